@@ -64,7 +64,15 @@ fn enclosing_fn(file: &str, line: u32) -> Option<String> {
 pub fn panic_sig(site: &PanicSite) -> String {
     let kind_site = PanicSite { file: String::new(), line: 0, msg: site.msg.clone() };
     let kind = kind_site.sig();
-    let kind = kind.strip_prefix("panic@:").unwrap_or(&kind).to_string();
+    let mut kind = kind.strip_prefix("panic@:").unwrap_or(&kind).to_string();
+    // the wording of std's slicing panics differs between toolchains (the check binary is built with stable, the
+    // fuzz target with nightly): classify them instead of quoting them
+    let m = &site.msg;
+    if m.contains("char boundary") {
+        kind = "str index not on a char boundary".into();
+    } else if m.contains("when slicing") || m.contains("byte range") || m.contains("out of range for") || m.contains("out of bounds") || (m.contains("range") && m.contains("index")) {
+        kind = "slice range out of order or out of bounds".into();
+    }
     let rel = match site.file.rfind("/repo/") {
         Some(p) => &site.file[p + 6..],
         None => site.file.as_str(),
